@@ -78,6 +78,7 @@ func init() {
 		MinCounts:   map[string]int{"ONE-TX": 8, "STATELESS-SERVICE": 8},
 		Trusted:     append([]string{"bbolt serialises read-write transactions"}, trustedBase...),
 		Controls: []core.Control{
+			{Name: "service-caches-command-texts", Rule: "STATELESS-SERVICE", File: "pkg/daemon/service.go", Old: "func (s *service) DelCmd(req *api.DelCmdRequest, res *api.DelCmdResponse) error {\n", New: "func (s *service) DelCmd(req *api.DelCmdRequest, res *api.DelCmdResponse) error {\n\ts.version++\n", Fire: true, Want: "DelCmd", Patterns: []string{"./pkg/daemon"}},
 			{Name: "addcmd-split-into-view-and-update", Rule: "ONE-TX", File: "pkg/store/cmd.go", Old: "\terr = s.db.Update(func(tx *bolt.Tx) error {\n\t\tb := tx.Bucket([]byte(bucketCmd))\n\t\tseq, err = b.NextSequence()", New: "\ts.db.View(func(tx *bolt.Tx) error {\n\t\t_ = tx.Bucket([]byte(bucketCmd)).Sequence()\n\t\treturn nil\n\t})\n\terr = s.db.Update(func(tx *bolt.Tx) error {\n\t\tb := tx.Bucket([]byte(bucketCmd))\n\t\tseq, err = b.NextSequence()", Fire: true, Quick: true},
 			{Name: "service-caches-last-seq", Rule: "STATELESS-SERVICE", File: "pkg/daemon/service.go", Old: "\tseq, err := s.store.AddCmd(req.Text)\n\tres.Seq = seq", New: "\tseq, err := s.store.AddCmd(req.Text)\n\ts.version = seq\n\tres.Seq = seq", Fire: true, Quick: true},
 		},
@@ -88,11 +89,15 @@ func init() {
 		NotCovered:  "all cross-process interleavings of activation, spawn and stale-socket handling",
 		Rules:       []string{"REMOVE-OWN", "SERVE-WHILE-CLIENTS"},
 		Patterns:    []string{"./pkg/daemon/..."},
-		Run:         runC27,
+		Run: func(p *core.Program, r *core.Report) {
+			runC27(p, r)
+			runLenKey(p, r, "SERVE-WHILE-CLIENTS", pkgDaemon)
+		},
 		MinCounts:   map[string]int{"REMOVE-OWN": 1, "SERVE-WHILE-CLIENTS": 2},
 		Trusted:     trustedBase,
 		Controls: []core.Control{
 			{Name: "remove-socket-when-listen-failed", Rule: "REMOVE-OWN", File: "pkg/daemon/server.go", Old: "\t\tlogger.Printf(\"failed to listen on %s: %v\", sockpath, err)\n\t\tlogger.Println(\"aborting\")\n\t\treturn 2", New: "\t\tlogger.Printf(\"failed to listen on %s: %v\", sockpath, err)\n\t\tlogger.Println(\"aborting\")\n\t\tos.Remove(sockpath)\n\t\treturn 2", Fire: true, Quick: true},
+			{Name: "connections-numbered-by-table-size", Rule: "SERVE-WHILE-CLIENTS", File: "pkg/daemon/server.go", Old: "\tconns := make(map[net.Conn]struct{})\n", New: "\tconns := make(map[net.Conn]struct{})\n\tnumbered := map[int]net.Conn{}\n\tdefer func() { delete(numbered, 0) }()\n", Edits: [][2]string{{"\t\t\tconns[conn] = struct{}{}\n", "\t\t\tconns[conn] = struct{}{}\n\t\t\tnumbered[len(numbered)+1] = conn\n"}}, Fire: true, Want: "identifies the entry"},
 			{Name: "exit-with-clients-on-conn-done", Rule: "SERVE-WHILE-CLIENTS", File: "pkg/daemon/server.go", Old: "\t\t\tdelete(conns, conn)\n\t\t\tif len(conns) == 0 {\n\t\t\t\tlogger.Println(\"all clients disconnected, exiting\")\n\t\t\t\tbreak loop\n\t\t\t}", New: "\t\t\tdelete(conns, conn)\n\t\t\tlogger.Println(\"a client disconnected, exiting\")\n\t\t\tbreak loop", Fire: true, Quick: true},
 			{Name: "exit-with-clients-on-listen-error", Rule: "SERVE-WHILE-CLIENTS", File: "pkg/daemon/server.go", Old: "\t\t\tif len(conns) == 0 {\n\t\t\t\tlogger.Println(\"exiting since there are no clients\")\n\t\t\t\tbreak loop\n\t\t\t}\n\t\t\tlogger.Println(\"continuing to serve until all existing clients exit\")", New: "\t\t\tbreak loop", Fire: true},
 		},
@@ -871,6 +876,28 @@ func runStatelessService(p *core.Program, r *core.Report) {
 					}
 				}
 			}
+			// the address of a field of the service is only ever loaded
+			// from: handing it to a method (s.cache.Store(...), s.mu.Lock())
+			// or writing through a loaded map means the service keeps state
+			if fa, ok := ins.(*ssa.FieldAddr); ok {
+				if nT, f := core.FieldName(fa); nT != nil && nT.Obj() == svc.Obj() {
+					for _, ref := range *fa.Referrers() {
+						switch u := ref.(type) {
+						case *ssa.UnOp:
+							for _, r2 := range *u.Referrers() {
+								if mu, ok := r2.(*ssa.MapUpdate); ok && mu.Map == ssa.Value(u) {
+									writes = f + " (map update)"
+								}
+							}
+						case *ssa.Store:
+							// counted above
+						case *ssa.DebugRef:
+						default:
+							writes = f + " (its address is passed on: " + strings.TrimSpace(ref.String()) + ")"
+						}
+					}
+				}
+			}
 			if c, ok := ins.(*ssa.Call); ok && c.Call.IsInvoke() {
 				if addr, ok := core.IsLoad(c.Call.Value); ok {
 					if fa, ok := addr.(*ssa.FieldAddr); ok {
@@ -1197,7 +1224,7 @@ func runC31(p *core.Program, r *core.Report) {
 					r.Bad("TIMEOUT-ALL", construct, p.InsPos(rd.ins), "the timeout variable is not initialised to a positive constant duration: a non-positive value means 'wait forever'")
 				}
 			} else {
-				r.Bad("TIMEOUT-ALL", construct, p.InsPos(rd.ins), "cannot resolve the timeout of this read")
+				r.Bad("TIMEOUT-ALL", construct, p.InsPos(rd.ins), "the timeout of this read is computed at run time (it is not a positive constant, a package variable initialised to a positive duration, or the caller's own timeout): a value that reaches zero or below means 'wait for ever', so an incomplete escape sequence can block the reader")
 			}
 		case *ssa.Const:
 			v, _ := constInt(t)
@@ -1241,7 +1268,7 @@ func runC31(p *core.Program, r *core.Report) {
 				r.Bad("TIMEOUT-ALL", construct, p.InsPos(rd.ins), "a read with no timeout after the first byte of an event (or inside a loop): an incomplete escape sequence blocks the reader forever instead of timing out")
 			}
 		default:
-			r.Bad("TIMEOUT-ALL", construct, p.InsPos(rd.ins), "cannot resolve the timeout of this read")
+			r.Bad("TIMEOUT-ALL", construct, p.InsPos(rd.ins), "the timeout of this read is computed at run time (it is not a positive constant, a package variable initialised to a positive duration, or the caller's own timeout): a value that reaches zero or below means 'wait for ever', so an incomplete escape sequence can block the reader")
 		}
 	}
 }
